@@ -115,6 +115,16 @@ def _build_frame(fs):
                  F.arp(fs["op"], src, fs["sip"], b"\0" * 6, fs["dip"]), vlan)
   if k == "other":
     return F.eth(dst, src, fs["ethertype"], pay, vlan)
+  if k == "snap" and fs.get("snapvlan"):
+    # 802.3 / SNAP (OUI 0, type 0x8100) / 802.1Q tag / IPv4+UDP: the tag
+    # comes after the SNAP header, which is the order the 1.0
+    # specification's parsing flowchart expects
+    vid, pcp = fs["snapvlan"]
+    inner = F.ipv4(fs["sip"], fs["dip"], 17,
+                   F.udp(fs["sip"], fs["dip"], fs.get("sport", 1000),
+                         fs.get("dport", 80), pay))
+    return F.llc_snap(dst, src, b"\0\0\0", 0x8100,
+                      struct.pack("!HH", (pcp << 13) | vid, 0x0800) + inner)
   if k == "snap":
     return F.llc_snap(dst, src, bytes.fromhex(fs.get("oui", "000000")),
                       fs["ethertype"], pay)
